@@ -193,6 +193,19 @@ CLAIMED = {
              'the runs together request every URL of the reference crawl; the resumed run terminates with exit 0; scope does not widen.',
         note='Trusted: SQLite atomic commit below statement level; process kill (not power loss); schedules replay exactly because one '
              'recorded tape drives run 0 and every killed run. Redirect follow-ups inside an item are exempt from the no-refetch clause.'),
+    'C09': dict(
+        level='exploration', engine='hostile', design_ref='4/C09',
+        technique='deterministic hostile-peer simulation in layers (HTTP session, web session, robots checker, FTP session, full-application '
+                  'crawl): valid traffic with grammar-aware mutations, raw random bytes and hostile documents, delivered under tape-drawn '
+                  'segmentation and combined with FIN/RST/stall; the oracle is the set of exception types that escape and, end to end, that '
+                  'the crawl continues',
+        text='Seeded search over mutations of status line, header fields, lengths, chunk framing, trailers, content codings, Location, '
+             'Set-Cookie, Content-Type/Disposition, > 64 KiB lines, NULs, bare CR, invalid UTF-8; mutated FTP replies at every step and '
+             'mutated LIST/MLSD listings; hostile HTML/CSS/JS/sitemap/robots.txt documents. Oracle: only ServerError, ProtocolError, '
+             'SSLVerificationError, NetworkError escape the session/checker APIs; in the crawl layer the unexpected-crash path is not '
+             'taken, every other URL is still fetched and hostile URLs end done/skipped/error.',
+        note='Closest to fuzzing; what simulation adds is that timing, segmentation and aborts are part of the input and survival is '
+             'judged end to end. html5lib only (no lxml). A virtual-time read timeout is a handled network error.'),
 }
 
 PENDING_REASON = 'check not built yet in this round (designed in DESIGN.md section 4); no claim is made'
